@@ -272,6 +272,11 @@ func ParseSliceHeader(nalu []byte, spsMap map[uint32]*SPS, ppsMap map[uint32]*PP
 					sh.NumRefIdxL1ActiveMinus1 = uint8(r.ReadExpGolomb())
 				}
 			}
+			// The values size the tables and drive the uint8 loops of pred_weight_table
+			if sh.NumRefIdxL0ActiveMinus1 > 14 || sh.NumRefIdxL1ActiveMinus1 > 14 {
+				return sh, fmt.Errorf("num_ref_idx_active_minus1 (l0 %d, l1 %d) is not in range 0 to 14",
+					sh.NumRefIdxL0ActiveMinus1, sh.NumRefIdxL1ActiveMinus1)
+			}
 
 			if pps.ListsModificationPresentFlag {
 				if pps.SccExtension != nil && pps.SccExtension.CurrPicRefEnabledFlag {
